@@ -7,6 +7,7 @@ import GoSQLXModel.Props.C16
 import GoSQLXModel.Gen.Structure
 import GoSQLXModel.Proofs.ExprProgress
 import GoSQLXModel.Proofs.ExprTotal
+import GoSQLXModel.Proofs.ExprMono
 /-!
 # C01 — No input can crash, panic or hang any entry point
 
@@ -80,6 +81,12 @@ theorem expression_ladder_moves_forward (f d : Nat) (ts : List ExprParse.PTok) (
 theorem expression_ladder_returns (d : Nat) (ts : List ExprParse.PTok) (f : Nat) (hf : 10 * ts.length + 8 ≤ f) :
     ExprParse.pExpr f d ts ≠ .oof :=
   ExprParse.pExpr_returns d ts f hf
+
+/-- … and its answer does not depend on the fuel: every sufficient fuel gives the answer of `parseExprAt`, which is never
+    out-of-fuel — the fuel of the model is an artefact of the proof assistant, not a behaviour -/
+theorem expression_answer_independent_of_fuel (d : Nat) (ts : List ExprParse.PTok) (f : Nat) (hf : 10 * ts.length + 8 ≤ f) :
+    ExprParse.pExpr f d ts = ExprParse.parseExprAt d ts ∧ ExprParse.parseExprAt d ts ≠ .oof :=
+  ⟨ExprParse.pExpr_stable d ts f hf, ExprParse.parseExprAt_ne_oof d ts⟩
 
 /-- non-vacuity: `a + ` followed by nothing fails rather than loops, `a + b )` stops before the parenthesis -/
 example : (ExprParse.pExpr 40 0 [⟨.ident, "a"⟩, ⟨.plus, "+"⟩]).canon = "ERR E2001" := by decide +kernel
